@@ -193,10 +193,12 @@ def handleC04 (j : Json) : Except String Verdict := do
   let causeOf (whereK what : String) : String :=
     if what == "value-case" && kwAny then "value-case"
     else if (whereK == "scenario" || whereK == "step") && hasFeat o "sf" "boards:decl-after-scenarios-or-steps" then "board-order"
-    else if whereK != "root" && hasFeat o "sf" "boards:decl-after-layers" && hasFeat o "sf" "glob:triple" then "board-order-glob"
+    else if (hasFeat o "sf" "boards:decl-after-layers" || hasFeat o "sf" "boards:decl-after-scenarios-or-steps")
+        && hasFeat o "sf" "glob:any" then "board-order-glob"
     else if whereK != "root" && hasFeat o "sf" "boards:empty-entry" then "empty-board-map"
     else if hasFeat o "sf" "boards:quoted-key" then "quoted-board-key"
     else if hasFeat o "sf" "kwcase:key-segment" then "key-case"
+    else if hasFeat o "sf" "text:backslash-crlf" then "backslash-crlf"
     else s!"unexplained:{whereK}/{what}"
   match getStr o "c2err" with
   | .ok e =>
@@ -206,6 +208,7 @@ def handleC04 (j : Json) : Except String Verdict := do
       else if hasFeat o "sf" "kwcase:key-segment" then "key-case"
       else if kwAny then "value-case"
       else if hasFeat o "sf" "boards:empty-entry" then "empty-board-map"
+      else if hasFeat o "sf" "text:backslash-crlf" then "backslash-crlf"
       else "unexplained"
     return .specfalse s!"recompile-error/{cause}" s!"Compile(Format(Parse s)) fails: {e}{tail}"
   | .error _ => pure ()
